@@ -2,6 +2,8 @@ import Comdex.Lemmas.DutchPrice
 import Comdex.Lemmas.DutchV2
 import Comdex.Lemmas.DutchV1
 import Comdex.Lemmas.DutchV1Lend
+import Comdex.Lemmas.DutchV2W
+import Comdex.Lemmas.DutchBand
 /-!
 # C10 — Dutch auctions settle completely and sell at the posted, falling price
 
@@ -34,7 +36,13 @@ the bid-path theorems are the `v1_…` theorems at the end; they hold without ex
 * "when the auction ends the proceeds are fully distributed …"        → `close_proceeds_distributed` (burn + collector +
                                                                         keeper + initiator + pool + booked fees = target,
                                                                         unsold collateral to the owner)
-* "… and no unaccounted remainder stays in auction custody"           → `close_custody_accounted` (identity with the explicit
+* the band in EVERY reachable state, emergency shutdown included       → `price_in_band_every_reachable_state` (+ what the shutdown
+                                                                        iterator does per initiator kind:
+                                                                        `esm_leaves_nonvault_auction_untouched_past_end`,
+                                                                        `trigger_esm_moves`, `esm_trigger_repeats_counterexample`)
+* "… and no unaccounted remainder stays in auction custody"           → `debt_custody_every_history` (every history, D7 / D23 / D24
+                                                                        included: the remainder is exactly `paid + need − target`),
+                                                                        `close_custody_accounted` (identity with the explicit
                                                                         shortfall term), `close_distributes_all_partial`
                                                                         (exact when no reserve shortfall happened),
                                                                         `close_distributes_all_counterexample`
@@ -176,7 +184,7 @@ sequence of market bids (any bidders, any amounts), price updates / restarts wit
 deposits and limit-bid fills with at most one limit bid per premium bucket.  `_partial`: with two limit bids in one
 bucket the statement is false of the code (`bidders_pay_le_target_counterexample`). -/
 theorem bidders_pay_le_target_partial (e : Env) (hw : WfEnv e) (a : Auc) (b : Bank) (r : Option Int) (hs : Start e a)
-    (ops : List Op) (hops : ∀ op ∈ ops, WfOp op) :
+    (ops : List Op) (hops : ∀ op ∈ ops, WfOp e op) :
     0 ≤ (run e (initSt e a b r) ops).paid ∧ (run e (initSt e a b r) ops).paid ≤ e.target := by
   have hi := run_inv hw ops _ (init_inv e a b r hs) hops
   refine ⟨hi.paid_nonneg, ?_⟩
@@ -188,7 +196,7 @@ theorem bidders_pay_le_target_partial (e : Env) (hw : WfEnv e) (a : Auc) (b : Ba
 
 /-- **bidders receive in total no more than the seized collateral** (same quantification) -/
 theorem bidders_receive_le_collateral_partial (e : Env) (hw : WfEnv e) (a : Auc) (b : Bank) (r : Option Int) (hs : Start e a)
-    (ops : List Op) (hops : ∀ op ∈ ops, WfOp op) :
+    (ops : List Op) (hops : ∀ op ∈ ops, WfOp e op) :
     0 ≤ (run e (initSt e a b r) ops).recv ∧ (run e (initSt e a b r) ops).recv ≤ e.coll0 := by
   have hi := run_inv hw ops _ (init_inv e a b r hs) hops
   refine ⟨hi.recv_nonneg, ?_⟩
@@ -200,7 +208,7 @@ theorem bidders_receive_le_collateral_partial (e : Env) (hw : WfEnv e) (a : Auc)
 
 /-- while the auction is open the books are exact: paid + remaining target = target, received + remaining collateral = seized -/
 theorem open_books_exact (e : Env) (hw : WfEnv e) (a : Auc) (b : Bank) (r : Option Int) (hs : Start e a)
-    (ops : List Op) (hops : ∀ op ∈ ops, WfOp op) (a' : Auc) (h : (run e (initSt e a b r) ops).auc = some a') :
+    (ops : List Op) (hops : ∀ op ∈ ops, WfOp e op) (a' : Auc) (h : (run e (initSt e a b r) ops).auc = some a') :
     (run e (initSt e a b r) ops).paid + a'.debt = e.target ∧ (run e (initSt e a b r) ops).recv + a'.coll = e.coll0 ∧
     0 ≤ a'.debt ∧ 0 ≤ a'.coll ∧ (0 : Int) ≤ a'.price := by
   have hi := run_inv hw ops _ (init_inv e a b r hs) hops
@@ -326,7 +334,7 @@ module account holds, of the collateral, exactly what does not belong to this au
 does not belong to it plus the penalty an external auction books as module fees — MINUS every reserve draw that was
 needed but silently skipped (`short`, written only at `liquidate.go:611-617` when the reserve record is too small). -/
 theorem close_custody_accounted (e : Env) (hw : WfEnv e) (a : Auc) (b : Bank) (r : Option Int) (hs : Start e a)
-    (ops : List Op) (hops : ∀ op ∈ ops, WfOp op) (hc : (run e (initSt e a b r) ops).auc = none) :
+    (ops : List Op) (hops : ∀ op ∈ ops, WfOp e op) (hc : (run e (initSt e a b r) ops).auc = none) :
     let s := run e (initSt e a b r) ops
     s.bank.get .auction .coll = s.otherC ∧ s.bank.get .auction .debt + s.short = s.otherD + s.booked := by
   have hi := run_inv hw ops _ (init_inv e a b r hs) hops
@@ -335,7 +343,7 @@ theorem close_custody_accounted (e : Env) (hw : WfEnv e) (a : Auc) (b : Bank) (r
 
 /-- `_partial`: nothing unaccounted stays in (or leaves) custody, PROVIDED no reserve shortfall was skipped -/
 theorem close_distributes_all_partial (e : Env) (hw : WfEnv e) (a : Auc) (b : Bank) (r : Option Int) (hs : Start e a)
-    (ops : List Op) (hops : ∀ op ∈ ops, WfOp op) (hc : (run e (initSt e a b r) ops).auc = none)
+    (ops : List Op) (hops : ∀ op ∈ ops, WfOp e op) (hc : (run e (initSt e a b r) ops).auc = none)
     (hshort : (run e (initSt e a b r) ops).short = 0) :
     let s := run e (initSt e a b r) ops
     s.bank.get .auction .coll = s.otherC ∧ s.bank.get .auction .debt = s.otherD + s.booked := by
@@ -343,6 +351,96 @@ theorem close_distributes_all_partial (e : Env) (hw : WfEnv e) (a : Auc) (b : Ba
   simp only at this ⊢
   rw [hshort] at this
   exact ⟨this.1, by omega⟩
+
+/-! ### every reachable state: the price band, and the iterator under emergency shutdown -/
+
+/-- **The posted price stays between the start price and the end price (minus the proved slack) in EVERY reachable state** of a
+second-generation auction of any initiator kind: after any sequence of market bids, limit fills, reserve top-ups, limit deposits,
+ordinary blocks (price update inside the window, restart after it) and blocks under emergency shutdown of the app (`tickEsm`:
+price update inside the window; past its end `TriggerEsm` for a vault-initiated auction, NOTHING for a lend- / externally initiated
+one).  Hypotheses: the activator posted the start price, block times do not run backwards, oracle prices are unsigned.
+The band of the record: `price ≤ start` and `(price + 1)·tau ≥ end·tau − (start − end)` with `end`, `tau` recomputed from the
+record's start price as the code does — exactly what the driver evaluates on every REAL record after every REAL block
+(`price_in_range`, `price_in_range_slack`).  An iterator that keeps updating past the end of the window (seeded change s81: a
+non-vault auction under shutdown) leaves this band after `tau − T` more seconds. -/
+theorem price_in_band_every_reachable_state (e : Env) (hw : WfEnv e) (a : Auc) (b : Bank) (r : Option Int) (hs : Start e a)
+    (hp : a.price = a.init) (t0 : Int) (ht0 : a.start ≤ t0) (ops : List Op) (hc : Chrono t0 ops)
+    (a' : Auc) (h : (run e (initSt e a b r) ops).auc = some a') :
+    (a'.price : Int) ≤ a'.init ∧ monBand e a' = true ∧
+    ∀ endP t, DutchPrice.endPrice a'.init e.discount = .ok endP → DutchPrice.tau a'.init endP e.T = .ok t →
+      (endP : Int) * t - (a'.init - endP) ≤ (a'.price + 1) * t := by
+  have h0 : BandInv e (initSt e a b r) t0 := by
+    intro a'' ha''
+    simp only [initSt, Option.some.injEq] at ha''
+    subst ha''
+    exact ⟨band_at_start hw hs.init_nonneg hp hs.window, ht0⟩
+  obtain ⟨hb, _⟩ := run_band hw ops _ t0 h0 hc a' h
+  exact ⟨hb.le_start, monBand_of_band hb, hb.ge_end⟩
+
+/-- non-vacuity: a lend-initiated auction, shutdown switched on, blocks inside the window, at its end and far past it: the record
+is updated twice and then frozen at the last posted price -/
+def bandEnv : Env := { kind := .lend, target := 1000, coll0 := 1000, T := 3600, premium := 1200000000000000000, discount := 700000000000000000 }
+def bandAuc : Auc := { coll := 1000, debt := 1000, bonus := 0, price := 2400000000000000000000000, init := 2400000000000000000000000,
+                       orc := 2000000000000000000000000, ord := 1000000000000000000000000, start := 0, end_ := 3600 }
+def bandOps : List Op := [.tickEsm 1800 2000000 true 1000000 true [], .tickEsm 3600 2000000 true 1000000 true [],
+                          .tickEsm 5400 2000000 true 1000000 true [], .tickEsm 20000 2000000 true 1000000 true []]
+
+example : Chrono 0 bandOps ∧ bandAuc.price = bandAuc.init ∧
+    ((run bandEnv (initSt bandEnv bandAuc [] none) bandOps).auc.map fun x => (x.price, x.start)) = some (1680000000000000000000000, 0) := by
+  refine ⟨by simp [Chrono, bandOps], rfl, by decide⟩
+
+/-- **emergency shutdown, lend- / externally initiated auction, window over: nothing happens** — no price update, no restart, no
+money moves (auctions.go:160-173: only a vault-initiated auction is handed to `TriggerEsm`) -/
+theorem esm_leaves_nonvault_auction_untouched_past_end (e : Env) (s : St) (a : Auc) (now twaC twaD : Int) (actC actD : Bool)
+    (hk : e.kind ≠ .vault) (ha : s.auc = some a) (hn : now > a.end_) : tickIterEsm e s now twaC actC twaD actD = s :=
+  tickIterEsm_nonvault_past_end hk ha hn
+
+/-- **what `TriggerEsm` moves** (vault-initiated auction under shutdown, window over): exactly what the auction has collected so
+far, `target − remaining debt`, leaves the module account — burned or sent to the collector; no collateral moves and the auction
+record stays as it is (so the next block does it again: `esm_trigger_repeats_counterexample`) -/
+theorem trigger_esm_moves (e : Env) (s s' : St) (a : Auc) (h : triggerEsm e s a = .ok s') :
+    s'.auc = s.auc ∧ 0 ≤ e.target - a.debt ∧
+    s'.bank.get .auction .debt = s.bank.get .auction .debt - (e.target - a.debt) ∧
+    (s'.burned - s.burned) + (s'.bank.get .collector .debt - s.bank.get .collector .debt) = e.target - a.debt ∧
+    (∀ x, s'.bank.get x .coll = s.bank.get x .coll) ∧ s'.esmOut = s.esmOut + (e.target - a.debt) ∧
+    s'.paid = s.paid ∧ s'.recv = s.recv := triggerEsm_ok h
+
+/-! ### the debt-side ledger that holds for EVERY history (several limit bids at one premium included) -/
+
+theorem init_invW (e : Env) (a : Auc) (b : Bank) (r : Option Int) (hs : Start e a) : InvW e (initSt e a b r) := by
+  refine ⟨by simp [initSt], by simp [initSt], by simp [initSt], by simp [initSt], ?_, ?_⟩
+  · intro a' ha'
+    simp only [initSt, Option.some.injEq] at ha'
+    subst ha'
+    refine ⟨rfl, ⟨?_, ?_, hs.price_nonneg, hs.init_nonneg, hs.window⟩, ?_⟩
+    · simp only [initSt]; rw [hs.debt]; omega
+    · rw [hs.bonus]; exact hs.bonus_nonneg
+    · simp only [initSt]; omega
+  · intro hn; simp [initSt] at hn
+
+/-- **custody of the debt side, for every history** — no hypothesis on the limit bids: any number of bidders may wait at one
+premium (D7), the collateral may be exhausted by a limit fill (D24), the reserve may be short (D23).  While the auction is open
+nothing the bidders paid has left the module account; once it is closed the module account holds, beyond what is not this
+auction's and the booked fees, exactly `paid + need − target ≥ 0`: what was collected (and asked from the reserve) beyond the
+target — 0 under the hypotheses of `close_custody_accounted`, the second collection of D7 otherwise — minus the reserve draw that
+was silently skipped (`short ≤ need`). -/
+theorem debt_custody_every_history (e : Env) (hw : WfEnv e) (a : Auc) (b : Bank) (r : Option Int) (hs : Start e a)
+    (ops : List Op) (hops : ∀ op ∈ ops, WfOpW e op) :
+    let s := run e (initSt e a b r) ops
+    0 ≤ s.paid ∧ 0 ≤ s.short ∧ s.short ≤ s.need ∧ 0 ≤ s.booked ∧
+    (∀ a', s.auc = some a' → s.need = 0 ∧ e.target ≤ s.paid + a'.debt ∧
+        s.bank.get .auction .debt + s.short = s.otherD + s.booked + s.paid) ∧
+    (s.auc = none → e.target ≤ s.paid + s.need ∧
+        s.bank.get .auction .debt + s.short = s.otherD + s.booked + (s.paid + s.need - e.target)) := by
+  have hi := run_w hw ops _ (init_invW e a b r hs) hops
+  simp only
+  refine ⟨hi.paid_nonneg, hi.short_nonneg, hi.short_le, hi.booked_nonneg, ?_, ?_⟩
+  · intro a' ha'
+    obtain ⟨o1, o2, o3⟩ := hi.open_ a' ha'
+    exact ⟨o1, o2.cover, o3⟩
+  · intro hn
+    obtain ⟨c1, c2⟩ := hi.closed hn
+    exact ⟨c1, by omega⟩
 
 /-! ### concrete witnesses (replayed on the real keepers by the harness, first sequences of the run) -/
 
@@ -361,6 +459,31 @@ theorem bidders_pay_le_target_counterexample : d7Final.paid = 1520000 ∧ wEnv.t
 
 /-- … and 1 199 683 units of collateral handed out of 1 000 000 seized (the rest comes from the other position's custody) -/
 theorem bidders_receive_le_collateral_counterexample : d7Final.recv = 1199683 ∧ wEnv.coll0 = 1000000 := by decide
+
+/-- the D7 run satisfies the all-history ledger: after the close the module still holds the 400 000 it collected twice -/
+example : (∀ op ∈ d7Ops, WfOpW wEnv op) ∧ d7Final.paid + d7Final.need - wEnv.target = 400000 ∧
+    d7Final.bank.get .auction .debt = d7Final.otherD + 400000 := by
+  refine ⟨?_, by decide, by decide⟩
+  intro op hop
+  simp only [d7Ops, List.mem_cons, List.mem_nil_iff, or_false] at hop
+  rcases hop with h | h | h | h <;> subst h <;> simp [WfOpW]
+
+/-- emergency shutdown, vault-initiated auction (corpus 4): b1 has paid 100 000, a stranger's limit deposit of 250 000 sits in the
+module account; the window is over -/
+def esmBank : Bank := [((.auction, .coll), 1000000), ((.bidder 1, .debt), 10000000), ((.bidder 4, .debt), 10000000)]
+def esmOps : List Op := [.bid 1 100000 1000000, .limit 4 30 250000, .tickEsm 3660 1400000 true 1000000 true [(30, 4, 250000)],
+  .tickEsm 3720 1400000 true 1000000 true [(30, 4, 250000)], .tickEsm 3780 1400000 true 1000000 true [(30, 4, 250000)],
+  .tickEsm 3840 1400000 true 1000000 true [(30, 4, 250000)]]
+def esmFinal : St := run wEnv (initSt wEnv (wAuc 1680000000000000000000000 1400000000000000000000000) esmBank none) esmOps
+
+/-- **`TriggerEsm` repeats** (auctions.go:160-173, 487-533): it forwards what the auction collected but deletes neither the auction
+nor the locked vault, so every further block under shutdown forwards the same 100 000 again — here three times, 200 000 of it out
+of the stranger's deposit (50 000 left of 250 000; the fourth transfer fails); the auction is still open, its collateral still in
+the module account. -/
+theorem esm_trigger_repeats_counterexample :
+    esmFinal.paid = 100000 ∧ esmFinal.esmOut = 300000 ∧ esmFinal.bank.get .collector .debt = 300000 ∧
+    esmFinal.otherD = 250000 ∧ esmFinal.bank.get .auction .debt = 50000 ∧ esmFinal.auc.isSome = true ∧
+    esmFinal.bank.get .auction .coll = 1000000 - esmFinal.recv := by decide
 
 /-- reserve shortfall: collateral worth less than the remaining target, reserve record = 10, a stranger's limit deposit of
 700 000 sits in the module account -/
